@@ -265,7 +265,8 @@ Lemma step_inv st a st' : Inv st -> step st a = Some st' -> Inv st'.
 Proof.
   intros (HS & HD & HC) H. destruct a as [w e]. unfold step in H.
   destruct (nth_error (wks st) w) as [k|] eqn:Ek; [|discriminate].
-  destruct e as [det|c| |u|u| |next| | | |t|t].
+  destruct (negb (Nat.leb (base st) w)) eqn:Eb; [discriminate|].
+  destruct e as [det|c| |u|u| |next| | | |t|t|n].
   - (* EAllocDesc *)
     destruct (quiet k && cur_running st w k) eqn:Eq; [|discriminate].
     destruct (take Nat.eqb w (fdesc st) (ndesc st)) as [[d fd'] nd'] eqn:Et.
@@ -442,6 +443,12 @@ Proof.
       eapply lose_push; [exact HP|exact HD].
     + cbn [ths wks]. eapply cur_ok_B'; [exact HC|].
       eapply keeps_upd; [apply keeps_refl|exact Et|nr].
+  - (* EEpoch *)
+    injection H as <-. split; [exact HS|]. split; [exact HD|]. cbn [ths wks].
+    intros w2 k2 t2 Hn Hc. destruct (lt_dec w2 (length (wks st))) as [Hl|Hl].
+    + rewrite nth_error_app1 in Hn by exact Hl. eapply HC; eassumption.
+    + rewrite nth_error_app2 in Hn by lia. apply nth_error_In in Hn. apply repeat_spec in Hn.
+      subst k2. discriminate.
 Qed.
 
 Theorem ledger_invariant : forall st, reachable init step st -> Inv st.
@@ -579,6 +586,7 @@ Lemma step_fstk st w e st' : step st (w, e) = Some st' -> fstk_delta st w e st'.
 Proof.
   intros H. unfold step in H.
   destruct (nth_error (wks st) w) as [k|] eqn:Ek; [|discriminate].
+  destruct (negb (Nat.leb (base st) w)) eqn:Eb; [discriminate|].
   destruct e; cbn [fstk_delta].
   - crush_step H; injection H as <-; reflexivity.
   - destruct (w_new k) as [t|]; [|discriminate].
@@ -602,6 +610,7 @@ Proof.
   - crush_step H; injection H as <-; reflexivity.
   - crush_step H; injection H as <-; reflexivity.
   - crush_step H; injection H as <-; reflexivity.
+  - injection H as <-; reflexivity.
 Qed.
 
 Definition fdesc_delta (st : state) (w : nat) (e : ev) (st' : state) : Prop :=
@@ -623,6 +632,7 @@ Lemma step_fdesc st w e st' : step st (w, e) = Some st' -> fdesc_delta st w e st
 Proof.
   intros H. unfold step in H.
   destruct (nth_error (wks st) w) as [k|] eqn:Ek; [|discriminate].
+  destruct (negb (Nat.leb (base st) w)) eqn:Eb; [discriminate|].
   destruct e; cbn [fdesc_delta].
   - destruct (quiet k && cur_running st w k); [|discriminate].
     unfold take in H. destruct (pop Nat.eqb w (fdesc st)) as [[x r]|] eqn:Ep.
@@ -648,6 +658,7 @@ Proof.
     destruct (quiet k && cur_running st w k && phase_eqb (t_ph th) PDone) eqn:Eq; [|discriminate].
     apply andb_true_iff in Eq. destruct Eq as (_ & Ep). ph Ep.
     injection H as <-. exists th. auto.
+  - injection H as <-; reflexivity.
 Qed.
 
 (** C12_release_once, step form: the only step that puts a stack into a free list is the
@@ -736,4 +747,149 @@ Proof.
       rewrite Nat.eqb_refl. reflexivity.
     + destruct Hd as (th & _ & _ & Ef). rewrite Ef. cbn [filter fst].
       rewrite Nat.eqb_refl. reflexivity.
+Qed.
+
+(** * epochs: myth_fini drops every free list *)
+Lemma step_actor st w e st' : step st (w, e) = Some st' -> w < length (wks st) /\ base st <= w.
+Proof.
+  intros H. unfold step in H.
+  destruct (nth_error (wks st) w) as [k|] eqn:Ek; [|discriminate].
+  destruct (negb (Nat.leb (base st) w)) eqn:Eb; [discriminate|].
+  split; [eapply nth_error_lt; exact Ek|].
+  apply negb_false_iff in Eb. apply Nat.leb_le in Eb. exact Eb.
+Qed.
+
+Lemma step_workers st w e st' : step st (w, e) = Some st' ->
+  length (wks st) <= length (wks st') /\ base st <= base st' /\
+  (forall n, e = EEpoch n -> base st' = length (wks st) /\ fstk st' = fstk st /\ fdesc st' = fdesc st).
+Proof.
+  intros H. destruct (step_actor _ _ _ _ H) as (Hw & Hb). unfold step in H.
+  destruct (nth_error (wks st) w) as [k|] eqn:Ek; [|discriminate].
+  destruct (negb (Nat.leb (base st) w)) eqn:Eb; [discriminate|].
+  destruct e; crush_step H; injection H as <-;
+    cbn [wks base with_ths fstk fdesc]; rewrite ?upd_length, ?app_length;
+    (split; [lia|]); (split; [lia|]); intros ? E; try discriminate E.
+  repeat split; lia.
+Qed.
+
+(** every entry of a free list is keyed by an existing worker *)
+Definition keys_ok (st : state) : Prop :=
+  (forall x, In x (fstk st) -> fst (fst x) < length (wks st)) /\
+  (forall x, In x (fdesc st) -> fst x < length (wks st)).
+
+Lemma keys_inv : forall st, reachable init step st -> keys_ok st.
+Proof.
+  apply invariant_rule.
+  - intros st (nw & ->). split; intros x [].
+  - intros st [w e] st' (K1 & K2) H.
+    destruct (step_actor _ _ _ _ H) as (Hw & _). destruct (step_workers _ _ _ _ H) as (Hlen & _ & _).
+    pose proof (step_fstk _ _ _ _ H) as Hs. pose proof (step_fdesc _ _ _ _ H) as Hd. split.
+    + intros x Hx.
+      assert (Hold : In x (fstk st) -> fst (fst x) < length (wks st')) by (intros Hi; specialize (K1 x Hi); lia).
+      destruct e; cbn [fstk_delta] in Hs; try (rewrite Hs in Hx; auto).
+      * destruct Hs as [Hs|(l1 & k & y & l2 & E1 & E2 & _)]; [rewrite Hs in Hx; auto|].
+        apply Hold. rewrite E1. rewrite E2 in Hx. apply in_app_or in Hx. apply in_or_app.
+        destruct Hx as [Hx|Hx]; [left; exact Hx|right; right; exact Hx].
+      * destruct Hs as (k & t & th & _ & _ & _ & _ & Ef). rewrite Ef in Hx.
+        destruct Hx as [<-|Hx]; [cbn; lia|auto].
+    + intros x Hx.
+      assert (Hold : In x (fdesc st) -> fst x < length (wks st')) by (intros Hi; specialize (K2 x Hi); lia).
+      destruct e; cbn [fdesc_delta] in Hd; try (rewrite Hd in Hx; auto).
+      * destruct Hd as [Hd|(l1 & k & y & l2 & E1 & E2 & _)]; [rewrite Hd in Hx; auto|].
+        apply Hold. rewrite E1. rewrite E2 in Hx. apply in_app_or in Hx. apply in_or_app.
+        destruct Hx as [Hx|Hx]; [left; exact Hx|right; right; exact Hx].
+      * destruct Hd as (k & t & th & _ & _ & _ & _ & _ & Ef). rewrite Ef in Hx.
+        destruct Hx as [<-|Hx]; [cbn; lia|auto].
+      * destruct Hd as (th & _ & _ & Ef). rewrite Ef in Hx.
+        destruct Hx as [<-|Hx]; [cbn; lia|auto].
+Qed.
+
+(** the entries that belong to workers of earlier epochs *)
+Definition dead_stk (b : nat) (l : list ((nat * nat) * nat)) := filter (fun e => Nat.ltb (fst (fst e)) b) l.
+Definition dead_desc (b : nat) (l : list (nat * nat)) := filter (fun e => Nat.ltb (fst e) b) l.
+
+(** C12_epoch_drops_lists: no step touches a list of an earlier epoch; an allocation takes a
+    fresh resource or one released in the current epoch; and myth_fini/myth_init_ex makes every
+    cached entry an entry of an earlier epoch *)
+Theorem epoch_drops_lists : forall st w e st', reachable init step st -> step st (w, e) = Some st' ->
+  dead_stk (base st) (fstk st') = dead_stk (base st) (fstk st) /\
+  dead_desc (base st) (fdesc st') = dead_desc (base st) (fdesc st) /\
+  base st <= base st' /\
+  (forall c, e = EAllocStack c ->
+     fstk st' = fstk st \/
+     exists l1 k x l2, fstk st = l1 ++ (k, x) :: l2 /\ fstk st' = l1 ++ l2 /\ base st <= fst k) /\
+  (forall d, e = EAllocDesc d ->
+     fdesc st' = fdesc st \/
+     exists l1 k x l2, fdesc st = l1 ++ (k, x) :: l2 /\ fdesc st' = l1 ++ l2 /\ base st <= k) /\
+  (forall n, e = EEpoch n ->
+     fstk st' = fstk st /\ fdesc st' = fdesc st /\
+     (forall x, In x (fstk st') -> fst (fst x) < base st') /\
+     (forall x, In x (fdesc st') -> fst x < base st')).
+Proof.
+  intros st w e st' Hr H.
+  destruct (step_actor _ _ _ _ H) as (Hw & Hb). destruct (step_workers _ _ _ _ H) as (_ & Hbase & Hep).
+  pose proof (step_fstk _ _ _ _ H) as Hs. pose proof (step_fdesc _ _ _ _ H) as Hd.
+  assert (Hdead : Nat.ltb w (base st) = false) by (apply Nat.ltb_ge; exact Hb).
+  split; [|split; [|split; [exact Hbase|split; [|split]]]].
+  - unfold dead_stk. destruct e; cbn [fstk_delta] in Hs; try (rewrite Hs; reflexivity).
+    + destruct Hs as [Hs|(l1 & k & y & l2 & E1 & E2 & Hk)]; [rewrite Hs; reflexivity|].
+      rewrite E1, E2, !filter_app. cbn [filter fst]. rewrite Hk, Hdead. reflexivity.
+    + destruct Hs as (k & t & th & _ & _ & _ & _ & Ef). rewrite Ef. cbn [filter fst]. rewrite Hdead. reflexivity.
+  - unfold dead_desc. destruct e; cbn [fdesc_delta] in Hd; try (rewrite Hd; reflexivity).
+    + destruct Hd as [Hd|(l1 & k & y & l2 & E1 & E2 & Hk)]; [rewrite Hd; reflexivity|].
+      rewrite E1, E2, !filter_app. cbn [filter fst]. rewrite Hk, Hdead. reflexivity.
+    + destruct Hd as (k & t & th & _ & _ & _ & _ & _ & Ef). rewrite Ef. cbn [filter fst]. rewrite Hdead. reflexivity.
+    + destruct Hd as (th & _ & _ & Ef). rewrite Ef. cbn [filter fst]. rewrite Hdead. reflexivity.
+  - intros c ->. cbn [fstk_delta] in Hs. destruct Hs as [Hs|(l1 & k & y & l2 & E1 & E2 & Hk)]; [left; exact Hs|].
+    right. exists l1, k, y, l2. repeat split; auto. lia.
+  - intros d ->. cbn [fdesc_delta] in Hd. destruct Hd as [Hd|(l1 & k & y & l2 & E1 & E2 & Hk)]; [left; exact Hd|].
+    right. exists l1, k, y, l2. repeat split; auto. lia.
+  - intros n ->. destruct (Hep n eq_refl) as (Eb & Ef & Ed). destruct (keys_inv st Hr) as (K1 & K2).
+    rewrite Eb, Ef, Ed. auto.
+Qed.
+
+(** ... hence a stack or record that sits in a list of an earlier epoch stays there for ever and
+    is never owned by a thread again, whatever happens later *)
+Theorem cached_at_fini_never_reused : forall st, reachable init step st ->
+  forall sched,
+  (forall x, In x (fstk st) -> fst (fst x) < base st ->
+     In x (fstk (run step sched st)) /\
+     forall t th, nth_error (ths (run step sched st)) t = Some th -> owns_stack (t_ph th) = true ->
+                  t_stack th <> snd x) /\
+  (forall x, In x (fdesc st) -> fst x < base st ->
+     In x (fdesc (run step sched st)) /\
+     forall t th, nth_error (ths (run step sched st)) t = Some th -> t_ph th <> PGone ->
+                  t_desc th <> snd x).
+Proof.
+  intros st Hr sched.
+  assert (Hrun : reachable init step (run step sched st)) by (apply run_reachable; exact Hr).
+  assert (Hkeep : forall sched st, reachable init step st ->
+            base st <= base (run step sched st) /\
+            (forall x, In x (dead_stk (base st) (fstk st)) -> In x (fstk (run step sched st))) /\
+            (forall x, In x (dead_desc (base st) (fdesc st)) -> In x (fdesc (run step sched st)))).
+  { clear. induction sched as [|[w e] sched IH]; intros st Hr.
+    - cbn. split; [lia|]. split; intros x Hx; apply filter_In in Hx; tauto.
+    - change (run step ((w, e) :: sched) st) with (run step sched (exec1 step st (w, e))).
+      unfold exec1. destruct (step st (w, e)) as [st1|] eqn:E; [|apply IH; exact Hr].
+      destruct (epoch_drops_lists _ _ _ _ Hr E) as (E1 & E2 & Hb & _).
+      assert (Hr1 : reachable init step st1) by (eapply reach_step; eassumption).
+      destruct (IH st1 Hr1) as (Hb1 & K1 & K2). split; [lia|]. split.
+      + intros x Hx. apply K1. rewrite <- E1 in Hx. unfold dead_stk in *. apply filter_In in Hx.
+        apply filter_In. destruct Hx as (Hin & Hlt). split; [exact Hin|].
+        apply Nat.ltb_lt in Hlt. apply Nat.ltb_lt. lia.
+      + intros x Hx. apply K2. rewrite <- E2 in Hx. unfold dead_desc in *. apply filter_In in Hx.
+        apply filter_In. destruct Hx as (Hin & Hlt). split; [exact Hin|].
+        apply Nat.ltb_lt in Hlt. apply Nat.ltb_lt. lia. }
+  destruct (Hkeep sched st Hr) as (_ & K1 & K2). pose proof (ledger_invariant _ Hrun) as HI. split.
+  - intros x Hx Hlt.
+    assert (Hin : In x (fstk (run step sched st)))
+      by (apply K1; apply filter_In; split; [exact Hx|apply Nat.ltb_lt; exact Hlt]).
+    split; [exact Hin|]. intros t th Et Ho E.
+    destruct (owned_stack_exclusive _ HI t th Et Ho) as (_ & Hn & _). apply Hn. rewrite E. apply in_map. exact Hin.
+  - intros x Hx Hlt.
+    assert (Hin : In x (fdesc (run step sched st)))
+      by (apply K2; apply filter_In; split; [exact Hx|apply Nat.ltb_lt; exact Hlt]).
+    split; [exact Hin|]. intros t th Et Hng E.
+    assert (Ho : owns_desc (t_ph th) = true) by (destruct (t_ph th); try reflexivity; congruence).
+    destruct (owned_desc_exclusive _ HI t th Et Ho) as (_ & Hn & _). apply Hn. rewrite E. apply in_map. exact Hin.
 Qed.
